@@ -1,10 +1,15 @@
 """C07 runner: builds the four declaration styles of one nested group on the real jsonargparse and observes
 their action tables and their answers to inputs.
 
-stdin : {"cases": [ {"gk": str, "fields": [[name, ty, dflt], ...], "nfields": [...], "inputs": [input, ...]}, ... ]}
-        fields  = the declared field list: the dataclass / class styles are built from it
-        nfields = its normal form under the documented signature rules: the dotted / inner-parser styles are
-                  declared from it (one add_argument per field)
+stdin : {"cases": [ {"gk": str, "members": [member, ...], "nmembers": [...], "cls_full": bool, "inputs": [input, ...]}, ... ]}
+        member   = [name, ty, dflt]  |  [name, ty, dflt, {"o": value}]  (the declaration overrides the default: default=<instance>
+                   for the dataclass style, default=<dict> for the class style, plain default= for the other two)
+                 | {"sub": name, "fields": [leaf member, ...], "mdef": bool}  (a dataclass-typed member: a nested sub-group;
+                   mdef: the member has a default instance)
+        members  = the declared members: the dataclass / class styles are built from them
+        nmembers = their normal form under the documented signature rules: the dotted / inner-parser styles are
+                   declared from it (one add_argument per leaf, a nested ActionParser per sub-group)
+        cls_full = the class style's default= dict names every offered member (else only the overridden ones)
         ty    = "int" | "str" | "bool" | ["list", ty] | ["opt", ty]
         dflt  = {"nd": 1} (no default) | {"v": json value}
         input = {"env": {NAME: text}, "kind": "args", "args": [[opt, value], ...]}   -> parse_args(["opt=value", ...])
@@ -71,32 +76,67 @@ def ty_of(hint):
 
 
 def fields_of(fields):
+    """[[name, ty, dflt, over?], ...] -> [(name, type, signature default | MISSING, override | MISSING)]"""
     out = []
-    for name, t, d in fields:
-        out.append((name, py_type(t), MISSING if "nd" in d else d["v"]))
+    for f in fields:
+        name, t, d = f[0], f[1], f[2]
+        over = f[3]["o"] if len(f) > 3 and f[3] is not None else MISSING
+        out.append((name, py_type(t), MISSING if "nd" in d else d["v"], over))
     return out
 
 
-def mk_dataclass(fields):
+def members_of(members):
+    """leaf: [name, ty, dflt, over?]; nested dataclass-typed member: {"sub": name, "fields": [...], "mdef": bool}"""
+    out = []
+    for m in members:
+        if isinstance(m, dict):
+            out.append(("sub", m["sub"], fields_of(m["fields"]), bool(m.get("mdef"))))
+        else:
+            out.append(("leaf",) + fields_of([m])[0])
+    return out
+
+
+def fresh(v):
+    return json.loads(json.dumps(v))
+
+
+def dc_fields(fields):
     fl = []
-    for n, t, d in fields:
+    for n, t, d, _ in fields:
         if d is MISSING:
             fl.append((n, t))
         elif isinstance(d, (list, dict)):
-            fl.append((n, t, dataclasses.field(default_factory=lambda d=d: json.loads(json.dumps(d)))))
+            fl.append((n, t, dataclasses.field(default_factory=lambda d=d: fresh(d))))
         else:
             fl.append((n, t, dataclasses.field(default=d)))
-    return dataclasses.make_dataclass("G", fl, kw_only=True)
+    return fl
 
 
-def mk_class(fields):
+def mk_dataclass(members, name="G"):
+    """returns (dataclass, {sub name: sub dataclass})"""
+    fl, subs = [], {}
+    for m in members:
+        if m[0] == "leaf":
+            fl += dc_fields([m[1:]])
+        else:
+            _, n, sfields, mdef = m
+            sub = dataclasses.make_dataclass("S_" + n, dc_fields(sfields), kw_only=True)
+            subs[n] = sub
+            fl.append((n, sub, dataclasses.field(default_factory=sub)) if mdef else (n, sub))
+    return dataclasses.make_dataclass(name, fl, kw_only=True), subs
+
+
+def mk_class(members):
     params = [inspect.Parameter("self", inspect.Parameter.POSITIONAL_OR_KEYWORD)]
-    for n, t, d in fields:
-        params.append(
-            inspect.Parameter(
-                n, inspect.Parameter.KEYWORD_ONLY, annotation=t, default=inspect.Parameter.empty if d is MISSING else d
-            )
-        )
+    for m in members:
+        if m[0] == "leaf":
+            _, n, t, d, _ = m
+            default = inspect.Parameter.empty if d is MISSING else d
+        else:
+            _, n, sfields, mdef = m
+            t = dataclasses.make_dataclass("S_" + n, dc_fields(sfields), kw_only=True)
+            default = t() if mdef else inspect.Parameter.empty
+        params.append(inspect.Parameter(n, inspect.Parameter.KEYWORD_ONLY, annotation=t, default=default))
 
     class K:
         def __init__(self, *a, **k):
@@ -106,6 +146,50 @@ def mk_class(fields):
     return K
 
 
+def has_overrides(members):
+    for m in members:
+        fs = [m[1:]] if m[0] == "leaf" else m[2]
+        if any(f[3] is not MISSING for f in fs):
+            return True
+    return False
+
+
+def skipped(n, d):
+    """non-required private parameter that HAS a default in the signature: not offered by the signature styles"""
+    return n.startswith("_") and d is not MISSING
+
+
+def override_dict(members, full):
+    """the default= mapping of the class style: only the overridden members (full=False) or every offered member"""
+    out = {}
+    for m in members:
+        if m[0] == "leaf":
+            _, n, _, d, o = m
+            if o is not MISSING:
+                out[n] = fresh(o)
+            elif full and d is not MISSING and not skipped(n, d):
+                out[n] = fresh(d)
+        else:
+            _, n, sfields, _ = m
+            sub = override_dict([("leaf",) + f for f in sfields], full)
+            if sub or full:
+                out[n] = sub
+    return out
+
+
+def override_instance(cls, subs, members):
+    """the default= instance of the dataclass style: the overridden values, signature defaults elsewhere"""
+    kw = {}
+    for m in members:
+        if m[0] == "leaf":
+            if m[4] is not MISSING:
+                kw[m[1]] = fresh(m[4])
+        else:
+            _, n, sfields, _ = m
+            kw[n] = subs[n](**{f[0]: fresh(f[3]) for f in sfields if f[3] is not MISSING})
+    return cls(**kw)
+
+
 def base():
     p = ArgumentParser(exit_on_error=False, default_env=True, env_prefix="APP")
     p.add_argument("--cfg", action=ActionConfigFile)
@@ -113,25 +197,48 @@ def base():
 
 
 def add_each(p, prefix, fields):
-    for n, t, d in fields:
-        kw = {"required": True} if d is MISSING else {"default": json.loads(json.dumps(d))}
+    """one add_argument per field, with the overriding default where the declaration gives one"""
+    for n, t, d, o in fields:
+        if o is not MISSING:
+            kw = {"default": fresh(o)}
+            if d is MISSING:
+                kw["required"] = True
+        else:
+            kw = {"required": True} if d is MISSING else {"default": fresh(d)}
         p.add_argument("--" + prefix + n, type=t, **kw)
 
 
-def build(style, gk, fields, nfields):
-    """fields: the declared field list (signature styles); nfields: its normal form under the documented
-    signature rules (computed by the harness, checked against Model.C07Decl.norm by the judge), from which the
+def build(style, gk, members, nmembers, cls_full=False):
+    """members: the declared members (signature styles); nmembers: their normal form under the documented
+    signature rules (computed by the harness, checked against Model.C07Decl.mnorm by the judge), from which the
     two add_argument styles are declared"""
     p = base()
     if style == "dotted":
-        add_each(p, gk + ".", nfields)
+        for m in nmembers:
+            if m[0] == "leaf":
+                add_each(p, gk + ".", [m[1:]])
+            else:
+                add_each(p, gk + "." + m[1] + ".", m[2])
     elif style == "dcls":
-        p.add_argument("--" + gk, type=mk_dataclass(fields))
+        cls, subs = mk_dataclass(members)
+        if has_overrides(members):
+            p.add_argument("--" + gk, type=cls, default=override_instance(cls, subs, members))
+        else:
+            p.add_argument("--" + gk, type=cls)
     elif style == "cls":
-        p.add_class_arguments(mk_class(fields), gk)
+        if has_overrides(members):
+            p.add_class_arguments(mk_class(members), gk, default=override_dict(members, cls_full))
+        else:
+            p.add_class_arguments(mk_class(members), gk)
     elif style == "inner":
         ip = ArgumentParser(exit_on_error=False)
-        add_each(ip, "", nfields)
+        for m in nmembers:
+            if m[0] == "leaf":
+                add_each(ip, "", [m[1:]])
+            else:
+                sp = ArgumentParser(exit_on_error=False)
+                add_each(sp, "", m[2])
+                ip.add_argument("--" + m[1], action=ActionParser(parser=sp))
         p.add_argument("--" + gk, action=ActionParser(parser=ip))
     return p
 
@@ -165,16 +272,28 @@ def table(p):
     return {"rows": rows, "required": sorted(p.required_args)}
 
 
+def flat_ns(v, prefix, out):
+    """the levels below the group key are flattened into dotted field names (the model's namespace has two levels)"""
+    items = vars(v).items() if isinstance(v, Namespace) else v.items()
+    for f, x in items:
+        if isinstance(x, (Namespace, dict)) and (isinstance(x, Namespace) or all(isinstance(k, str) for k in x)) \
+                and (vars(x) if isinstance(x, Namespace) else x):
+            flat_ns(x, prefix + str(f) + ".", out)
+        elif isinstance(x, Namespace) or (isinstance(x, dict) and not x):
+            continue   # an empty sub-namespace has no leaves
+        else:
+            out.append([prefix + str(f), canon(x)])
+    return out
+
+
 def ns_items(d):
-    """top-level (key, value) with one nested level kept apart"""
+    """top-level (key, value); below a top-level key the leaves with their dotted paths"""
     out = []
     for k, v in d.items():
         if k == "cfg":
             continue
-        if isinstance(v, Namespace):
-            out.append([k, {"ns": [[f, canon(x)] for f, x in vars(v).items()]}])
-        elif isinstance(v, dict):
-            out.append([k, {"ns": [[str(f), canon(x)] for f, x in v.items()]}])
+        if isinstance(v, (Namespace, dict)):
+            out.append([k, {"ns": flat_ns(v, "", [])}])
         else:
             out.append([k, {"leaf": canon(v)}])
     return out
@@ -219,9 +338,12 @@ def loader_tables(case, inp):
     """pv / jl on every text the model may look at: the texts of the input and of the defaults, closed under the
     strings inside what they load to."""
     todo = set()
-    for _, _, d in case["fields"]:
-        if "v" in d:
-            strings_in(d["v"], todo)
+    for m in case["members"]:
+        for f in (m["fields"] if isinstance(m, dict) else [m]):
+            if "v" in f[2]:
+                strings_in(f[2]["v"], todo)
+            if len(f) > 3 and f[3] is not None:
+                strings_in(f[3]["o"], todo)
     for v in inp["env"].values():
         todo.add(v)
     if inp["kind"] == "args":
@@ -260,12 +382,15 @@ def main():
     saved = dict(os.environ)
     out = []
     for case in cases:
-        fields = fields_of(case["fields"])
-        nfields = fields_of(case["nfields"])
+        if "members" not in case:   # older replay files: a flat field list
+            case["members"], case["nmembers"] = case["fields"], case["nfields"]
+        fields = members_of(case["members"])
+        nfields = members_of(case["nmembers"])
+        full = bool(case.get("cls_full"))
         res = {"tables": {}, "runs": []}
         for st in STYLES:
             try:
-                res["tables"][st] = table(build(st, case["gk"], fields, nfields))
+                res["tables"][st] = table(build(st, case["gk"], fields, nfields, full))
             except BaseException as e:  # noqa
                 res["tables"][st] = {"error": type(e).__name__ + ": " + str(e)[:200]}
         for inp in case["inputs"]:
@@ -277,7 +402,7 @@ def main():
                 os.environ.update(saved)
                 os.environ.update(inp["env"])
                 try:
-                    p = build(st, case["gk"], fields, nfields)
+                    p = build(st, case["gk"], fields, nfields, full)
                 except BaseException as e:  # noqa
                     r["styles"][st] = {"out": "other:build:" + type(e).__name__, "dump": None}
                     continue
